@@ -44,8 +44,10 @@ def in_context(ctx, body):
 
 # ------------------------------------------------------------------- C09
 
-ATTACH = ['', ' ', '  ', '\t', '\n', ' \n', '\n ', ' \t\n\t ']
-DETACH = ['\n\n', ' \n \n ', '.', ', ', '%c\n', '\\\\', '1', '~', '\x0b', '\x0c', '\xa0']
+# CR is an end-of-line character like LF: one attaches, two (a blank line in a
+# file with CR line ends) detach
+ATTACH = ['', ' ', '  ', '\t', '\n', ' \n', '\n ', ' \t\n\t ', '\r', ' \r ']
+DETACH = ['\n\n', ' \n \n ', '\r\r', '\r \r', ' \r\r', '\n\r', '.', ', ', '%c\n', '\\\\', '1', '~', '\x0b', '\x0c', '\xa0']
 GROUP_BODIES = {
     'Bracket': ['o', '', 'a b', '{]}', '\\y{z}', '(', '{[}x', '{a} {b}', ' '],
     'Brace': ['r', '', 'a]b', 'a[b', '[', ']', '\\y[z]', '{n}', '$m$', '[x]', ')(', '] [', '{x} {y}', ' ',
